@@ -164,6 +164,7 @@ type Worker struct {
 	nameCount map[string]int
 	usedUF    bool
 	observes  []string
+	domains   map[*sym.Term]string // symbolic bytes with a known finite alphabet
 	knownHit  map[string]*sym.Term // known-finding predicates true on this path (id -> cond term or nil=concrete true)
 
 	local [][]Decision
@@ -831,6 +832,7 @@ func (w *Worker) runPath(prefix []Decision) {
 	w.usedUF = false
 	w.observes = nil
 	w.knownHit = nil
+	w.domains = nil
 	i := w.interp
 	i.steps, i.depth = 0, 0
 	i.stack = i.stack[:0]
